@@ -3,7 +3,7 @@ implementation and the extracted model on a case list, comparing, evidence and v
 import os, sys, subprocess, json, time, hashlib, fcntl, re, shutil, random
 
 VERIF = os.path.dirname(os.path.dirname(os.path.abspath(__file__)))
-REPO = os.environ.get("VERIF_REPO", "/repo")
+REPO = os.environ.get("VERIF_REPO") or os.environ.get("VP_RUN_REPO") or "/repo"   # vp run --with-repo hands over a snapshot of /repo
 CACHE = os.path.join(VERIF, ".cache")
 TARGET = os.path.join(CACHE, "target")
 COQ = os.path.join(VERIF, "coq")
@@ -121,6 +121,7 @@ def build_harness(cl03=True, timeout=1800):
             shutil.copy(os.path.join(REPO, "Cargo.lock"), lock)
         cmd = ["timeout", str(timeout), "cargo", "build", "--offline", "--release", "-q"]
         if cl03: cmd += ["--features", "implrun/cl03"]
+        if REPO != "/repo": cmd += ["--config", 'paths=["%s"]' % REPO]     # the harness names /repo; a snapshot overrides it by path
         rc, out = sh(cmd, cwd=HARNESS, env=cargo_env())
         return rc == 0, out
 
